@@ -98,7 +98,7 @@ static void * probe_thread(void * a) {
     case PH_MUTEX:
       probed(&p, (void *)myth_mutex_lock, &G.m, 0, 1);
       for (int k = 0; k < ph->a; k++) probed(&p, (void *)myth_yield_ex, (void *)(intptr_t)myth_yield_option_local_first, 0, 0);
-      myth_mutex_unlock(&G.m);
+      Z0(myth_mutex_unlock(&G.m));
       break;
     case PH_BARRIER: probed(&p, (void *)myth_barrier_wait, &G.bar, 0, 0); break;
     case PH_CONDTURN:
@@ -106,7 +106,7 @@ static void * probe_thread(void * a) {
       while (G.turn != p.tid) probed(&p, (void *)myth_cond_wait, &G.cv, &G.m, 1);
       G.turn = (p.tid + 1) % G.T;
       myth_cond_broadcast(&G.cv);
-      myth_mutex_unlock(&G.m);
+      Z0(myth_mutex_unlock(&G.m));
       break;
     case PH_JC:
       myth_join_counter_dec(&G.jc[i]);
@@ -164,7 +164,7 @@ void scen_c03(mt_case * c) {
   mt_hash(c->prog.p, c->prog.pos);
   mt_lib_start(c, &e, 0);
   mv_set_point_observer(align_observer);
-  myth_mutex_init(&G.m, 0); myth_cond_init(&G.cv, 0); myth_barrier_init(&G.bar, 0, G.T);
+  Z0(myth_mutex_init(&G.m, 0)); myth_cond_init(&G.cv, 0); Z0(myth_barrier_init(&G.bar, 0, G.T));
   for (int i = 0; i < G.nph; i++) myth_join_counter_init(&G.jc[i], 0, G.T);
   for (int i = 0; i < 16; i++) myth_uncond_init(&G.un[i]);
   /* probe threads are themselves entered through the assembly stub, alternating creation order */
@@ -172,9 +172,9 @@ void scen_c03(mt_case * c) {
   for (int t = 0; t < G.T; t++) {
     myth_thread_attr_t at; myth_thread_attr_init(&at); at.stacksize = 0; at.child_first = (int)rd_below(r, 2);
     ps[t].align = -1; ps[t].fn = probe_thread; ps[t].arg = (void *)(intptr_t)t;
-    myth_create_ex(&th[t], &at, probe_entry, &ps[t]);
+    Z0(myth_create_ex(&th[t], &at, probe_entry, &ps[t]));
   }
-  for (int t = 0; t < G.T; t++) { myth_join(th[t], 0); mv_progress(); }
+  for (int t = 0; t < G.T; t++) { Z0(myth_join(th[t], 0)); mv_progress(); }
   mt_lib_finish();
   for (int t = 0; t < G.T; t++) if (ps[t].align != 8) mt_fail("probe thread %d entered with rsp %% 16 == %ld (ABI requires 8)", t, ps[t].align);
   mt_stat("probes", G.probes); mt_stat("switched", G.switched); mt_stat("migrated", G.migrated); mt_stat("entries_checked", G.entries + G.T);
